@@ -13,7 +13,11 @@ package main
 //        infull    the subject floods a third client that has stopped reading: the subject's processor is parked
 //                  in the third party's outgoing ring, the subject's incoming ring is full
 //        selffull  the subject has stopped reading and floods its own subscription: its processor is parked in
-//                  its OWN outgoing ring, its incoming ring is full
+//                  its OWN outgoing ring, its incoming ring is full (the receiver waits for ring space: no socket
+//                  read is pending, so no read deadline is armed - keep-alive cannot fire here, finding F8)
+//        selfout   the same with just enough packets to fill the outgoing ring: the processor is parked in its OWN
+//                  outgoing ring, the incoming ring has room, the receiver is inside a socket read (finding F7:
+//                  before b77088f a read error - keep-alive expiry - left this connection standing)
 //        cross     subject and third have both stopped reading and flood each other: each processor is parked
 //                  in the other's outgoing ring
 //        chunked   the subject sends the first 9000 bytes of a 16 000 byte PUBLISH in 1000-byte writes (16 KiB
@@ -26,6 +30,10 @@ package main
 // Output: [held-up-by-third] [held-up-by-self] torn=<0|1> will=<0|1|-> witness-alive=<0|1|-> srvclose=<0|1|panic> goroutines-left=<n>
 // (torn: the teardown-finished notification of the subject - and of a third party that ended on the way - arrived;
 // "-": not observable because Server.Close is stopping the witness too)
+// held-up-by-third: the property's exemption (a delivery from the subject is parked in ANOTHER connection's ring).
+// held-up-by-self:  NOT an exemption (since b77088f): the subject's teardown did not start although its cause
+//                   happened, because its processor is parked behind its own client; the harness then makes the
+//                   client go away.  Expected only where the cause cannot be noticed at all (selffull keepalive, F8).
 
 import (
 	"bufio"
@@ -186,6 +194,12 @@ func lifeRun(cond, cause, order string) string {
 		subscribeAndWait(subj, "toS")
 		subj.setPaused(true)
 		floodDone = flood(subj, "toS", 80)
+	case "selfout":
+		// paused before the SUBSCRIBE: the reader goroutine's pending Read takes the SUBACK and nothing after it
+		subj.setPaused(true)
+		subscribeAndWait(subj, "toS")
+		// 16 packets of 1008 bytes fill the 16 KiB outgoing ring, the echo of the 17th parks the processor
+		floodDone = flood(subj, "toS", 16384/1008+1)
 	case "cross":
 		subscribeAndWait(subj, "toS")
 		subscribeAndWait(third, "toT")
@@ -272,9 +286,10 @@ func lifeRun(cond, cause, order string) string {
 		third.dead = true
 		torn = stoppedWithin(subj, lifeWait)
 	}
-	if !torn && cond == "selffull" {
-		// the same exemption with the subject in both roles: its processor is parked in its own outgoing
-		// ring, which its own client (still connected, not reading) does not drain
+	if !torn && (cond == "selffull" || cond == "selfout") {
+		// the subject holds itself up: its processor is parked in its own outgoing ring, which its own
+		// client (still connected, not reading) does not drain.  No exemption: the token fails the oracle
+		// unless the cause could not be noticed at all (selffull keepalive: no read pending, F8)
 		res = append(res, "held-up-by-self")
 		subj.conn.Close()
 		torn = stoppedWithin(subj, lifeWait)
@@ -412,10 +427,12 @@ func emitScns(w *bufio.Writer, r *rand.Rand, n int, fixed []lifeScn, pool []life
 }
 
 // genLifePairs: cross-blocked publisher/subscriber pairs, a connection whose processor is parked in its own
-// outgoing ring, and both orders in which the two involved connections end.
+// outgoing ring (receiver inside a read: selfout; receiver waiting for ring space: selffull), and both orders
+// in which the two involved connections end.
 func genLifePairs(seed int64, n int, tier string, w *bufio.Writer) {
 	all := []lifeScn{
-		{"cross", "close", "s"}, {"cross", "close", "t"}, {"selffull", "close", "s"}, {"infull", "close", "t"},
+		{"selfout", "keepalive", "s"}, {"cross", "close", "s"}, {"cross", "close", "t"}, {"selffull", "close", "s"}, {"selfout", "close", "s"},
+		{"infull", "close", "t"},
 		{"selffull", "keepalive", "s"}, {"outfull", "close", "t"}, {"infull", "disconnect", "t"}, {"cross", "keepalive", "s"},
 		{"cross", "keepalive", "t"}, {"outfull", "disconnect", "t"}, {"outfull", "keepalive", "t"}, {"infull", "protoerr", "t"},
 		{"infull", "oversize", "t"}, {"infull", "keepalive", "t"}, {"outfull", "protoerr", "t"}, {"outfull", "oversize", "t"},
@@ -429,7 +446,7 @@ func genLifeSrv(seed int64, n int, tier string, w *bufio.Writer) {
 	all := []lifeScn{
 		{"infull", "srvclose", "s"}, {"cross", "srvclose", "s"}, {"idle", "srvclose", "s"}, {"outfull", "srvclose", "s"},
 		{"infull", "srvclose", "t"}, {"selffull", "srvclose", "s"}, {"chunked", "srvclose", "s"}, {"cross", "srvclose", "t"},
-		{"outfull", "srvclose", "t"},
+		{"outfull", "srvclose", "t"}, {"selfout", "srvclose", "s"},
 	}
 	emitScns(w, rand.New(rand.NewSource(seed)), n, all, all)
 }
